@@ -20,6 +20,8 @@
                    there is no earlier one
      RawRead n     the scanner reading the sink (io.Reader)
      RawReadAt n   stream bodies and endstream probes (io.ReaderAt)
+   and, for Writer.Close on a Writer made by Create:
+     SinkClose     `err = w.origW.(io.Closer).Close(); if err != nil { return err }`
    The property is about failing Write and Seek calls: the fault index counts
    those; Read and ReadAt calls are logged but never fail in the model (what a
    failing read of a read-back may do is the subject of ErrFlow.v: the call
@@ -36,9 +38,10 @@ Definition bufio_size : N := 4096.   (* bufio.defaultBufSize, used by bufio.NewW
 
 Inductive sop :=
 | BWrite (n : N) | FlushIgnored | RawSeek | RawWrite (n : N) | FinalFlush
-| FlushReturned | RawRead (n : N) | RawReadAt (n : N).
+| FlushReturned | RawRead (n : N) | RawReadAt (n : N)
+| SinkClose.
 
-Inductive scall := CWrite (n : N) | CSeek | CRead (n : N) | CReadAt (n : N).
+Inductive scall := CWrite (n : N) | CSeek | CRead (n : N) | CReadAt (n : N) | CClose.
 
 Record wst := mkW {
   buffered : N;          (* bufio.Writer.n *)
@@ -120,6 +123,7 @@ Definition step (f : option fault) (op : sop) (s : wst) : option N * wst :=
   | FlushReturned => bufio_flush f s
   | RawRead n => sink_read (CRead n) s
   | RawReadAt n => sink_read (CReadAt n) s
+  | SinkClose => sink_call f CClose s
   end.
 
 Fixpoint run_ops (f : option fault) (ops : list sop) (s : wst) : list (option N) * wst :=
@@ -134,7 +138,7 @@ Fixpoint run_ops (f : option fault) (ops : list sop) (s : wst) : list (option N)
 (* operations whose error the Writer code returns to its caller without relying
    on any other propagation: the raw sink calls of Placeholder.Set *)
 Definition is_raw (op : sop) : bool :=
-  match op with RawSeek | RawWrite _ => true | _ => false end.
+  match op with RawSeek | RawWrite _ | SinkClose => true | _ => false end.
 
 (* operations that go through the bufio.Writer and report its state *)
 Definition is_buffered_report (op : sop) : bool :=
@@ -152,6 +156,45 @@ Fixpoint raw_reported (e : N) (ops : list sop) (rs : list (option N)) : bool :=
 Definition read_back (reads : list N) : list sop :=
   [FlushReturned; RawSeek; RawSeek] ++ map RawRead reads ++ [RawSeek].
 
+(* ---- Writer.Close ------------------------------------------------------ *)
+
+(* Close writes the catalog, Info, whatever the resource manager deferred, the
+   cross-reference table or stream (for a stream possibly with a placeholder:
+   ignored Flush, raw Seek/Write) and the trailer, `return err` after each step
+   that fails; then the Flush, then the Close of the sink if it owns it.  Only
+   the Flush inside Placeholder.Set (and reads) do not report. *)
+Definition reports (op : sop) : bool :=
+  match op with FlushIgnored | RawRead _ | RawReadAt _ => false | _ => true end.
+
+Fixpoint run_close (f : option fault) (cl : list sop) (s : wst) : option N * wst :=
+  match cl with
+  | [] => (None, s)
+  | op :: cl' =>
+      let (r, s') := step f op s in
+      if reports op then
+        match r with
+        | Some e => (Some e, s')          (* `if err != nil { return err }` *)
+        | None => run_close f cl' s'
+        end
+      else run_close f cl' s'
+  end.
+
+(* the operations of Close: any body, the Flush, the sink's Close if owned *)
+Definition close_ops (body : list sop) (owns : bool) : list sop :=
+  body ++ FinalFlush :: (if owns then [SinkClose] else []).
+
+(* verdicts for every sink call index made during Close *)
+Definition close_verdicts (before body : list sop) (owns : bool) (fmd : fmode) : list bool :=
+  let n0 := scalls (snd (run_ops None before w0)) in
+  let n1 := scalls (snd (run_close None (close_ops body owns) (snd (run_ops None before w0)))) in
+  map (fun k =>
+         let f := Some (plain_fault k fmd inj_id) in
+         match fst (run_close f (close_ops body owns) (snd (run_ops f before w0))) with
+         | Some x => N.eqb x inj_id
+         | None => false
+         end)
+      (seq (S n0) (n1 - n0)).
+
 (* ---- entry points for the correspondence run -------------------------- *)
 
 (* the sink calls of the fault-free run, in order *)
@@ -159,11 +202,21 @@ Definition sink_calls (ops : list sop) : list scall :=
   rev (slog (snd (run_ops None ops w0))).
 
 (* does a fault at call k come back from a raw call or from the final Flush? *)
+(* a Flush whose result the Writer returns (Writer.Get, Writer.Close) reported e *)
+Definition is_returned_flush (op : sop) : bool :=
+  match op with FinalFlush | FlushReturned => true | _ => false end.
+
+Fixpoint flush_reported (e : N) (ops : list sop) (rs : list (option N)) : bool :=
+  match ops, rs with
+  | op :: ops', r :: rs' =>
+      (is_returned_flush op && match r with Some x => N.eqb x e | None => false end) || flush_reported e ops' rs'
+  | _, _ => false
+  end.
+
 Definition surfaces_at (ops : list sop) (fmd : fmode) (k : nat) : bool :=
-  let f := Some (mkFault k fmd inj_id) in
+  let f := Some (plain_fault k fmd inj_id) in
   let (rs, s) := run_ops f ops w0 in
-  raw_reported inj_id ops rs ||
-  match last rs None with Some x => N.eqb x inj_id | None => false end.
+  raw_reported inj_id ops rs || flush_reported inj_id ops rs.
 
 Definition surface_verdicts (ops : list sop) (fmd : fmode) : list bool :=
   map (surfaces_at ops fmd) (seq 1%nat (scalls (snd (run_ops None ops w0)))).
